@@ -680,7 +680,25 @@ class Sym:
                         nb = accs_b.get(k, base[k])[2][len(base[k][2]):]
                         env.setdeep(k, ('acc', base[k][1], base[k][2] + na + nb))
                     continue
-                return False
+                # a branch leaves the iteration somewhere inside (nested continue / raise): run the rest of the body once
+                # per branch, each under its own guard (emissions under complementary guards are folded afterwards)
+                if getattr(self, '_cps_depth', 0) >= 6:
+                    return False
+                rest = list(stmts[i + 1:])
+                n0 = len(guard)
+                self._cps_depth = getattr(self, '_cps_depth', 0) + 1
+                try:
+                    for ct, branch in ((c, st.body), (self._neg(c), st.orelse)):
+                        eb = env.copy()
+                        guard.append(ct)
+                        ok = self._exec_loop_body(list(branch) + rest, eb, fr)
+                        del guard[n0:]
+                        if not ok:
+                            return False
+                        self._take_accs(env, eb)
+                finally:
+                    self._cps_depth -= 1
+                return True
             if isinstance(st, ast.Continue):
                 return True
             if isinstance(st, ast.Raise):
@@ -690,6 +708,14 @@ class Sym:
             if isinstance(st, (ast.For, ast.While, ast.Try)):
                 if isinstance(st, ast.For):
                     self._exec_for(st, env, fr)
+                    continue
+                if isinstance(st, ast.Try):
+                    # value semantics on the no-exception path (as for straight-line code)
+                    inner = st.body + st.orelse + st.finalbody
+                    if not self._exec_loop_body(inner, env, fr):
+                        return False
+                    if inner and isinstance(inner[-1], (ast.Continue, ast.Raise)):
+                        return True
                     continue
                 return False
             r = self._exec_stmt(st, env, fr, stmts[i + 1:])
@@ -724,7 +750,7 @@ class Sym:
             return 'fall'
         last = stmts[-1]
         if isinstance(last, ast.Continue):
-            return 'cont' if all(not isinstance(n, (ast.While, ast.Try, ast.Return, ast.Break, ast.Continue)) for s in stmts[:-1] for n in ast.walk(s)) else 'other'
+            return 'cont' if all(not isinstance(n, (ast.While, ast.Return, ast.Break, ast.Continue)) for s in stmts[:-1] for n in ast.walk(s)) else 'other'
         if isinstance(last, ast.Raise):
             return 'bottom'
         if any(isinstance(n, (ast.Continue, ast.Break, ast.Return)) for s in stmts for n in ast.walk(s)):
@@ -1307,7 +1333,25 @@ def assume(t, decide):
             return memo[k][1]
         if x and x[0] == 'cond':
             v = truth(x[1])
+            if v is None:
+                tt = go(x[1])
+                v = True if tt == ('lit', True) else False if tt == ('lit', False) else None
             r = go(x[2]) if v is True else go(x[3]) if v is False else tuple(go(y) for y in x)
+        elif x and x[0] == 'and' and isinstance(x[1], tuple):
+            parts = []
+            for p_ in x[1]:
+                v = truth(p_)
+                if v is True and p_ is not x[1][-1]:
+                    continue
+                if v is True:
+                    parts.append(('lit', True) if not parts else go(p_))
+                    continue
+                if v is False:
+                    parts = [('lit', False)]
+                    break
+                parts.append(go(p_))
+            parts = [q_ for q_ in parts if q_ != ('lit', True)] or [('lit', True)]
+            r = parts[0] if len(parts) == 1 else ('and', tuple(parts))
         elif x and x[0] == 'or' and isinstance(x[1], tuple):
             parts = []
             r = None
